@@ -64,17 +64,23 @@ def renameGroups (pre suf : Str) (regex : Str) (cache : List (Str × Nat)) : R (
         let new := p0 ++ pre ++ al ++ scache n ++ suf ++ p4
         (replaceFirst acc.1 old new, ainsert al (n + 1) acc.2)) (regex, cache))
 
-/-- `cls.gen_format(fmt, prefix=…, suffix=…)` -/
+/-- `re.sub(pattern, f, s)` for a replacement *function* that may raise and that threads a state
+    (the `_cache` counters): matches left to right, the text between matches is kept -/
+def subFold {σ : Type} (r : RE) (s : Str) (f : σ → Str → R (Str × σ)) (st : σ) : R (Str × σ) := do
+  let (out, cur, st') ← (finditer r s).foldlM (fun (acc : Str × Nat × σ) m => do
+      let (rep, st2) ← f acc.2.2 m.2.2.1
+      pure (acc.1 ++ (s.drop acc.2.1).take (m.1 - acc.2.1) ++ rep, m.2.1, st2)) (([] : Str), 0, st)
+  pure (out ++ s.drop cur, st')
+
+/-- `cls.gen_format(fmt, prefix=…, suffix=…)`: one left-to-right pass over `%%` and directives -/
 def genFormat (table : List (Str × Str)) (fmt pre suf : Str) : R Str := do
-  let toks ← tokens Gen.gen_format_token_re fmt
-  let (out, _) ← toks.foldlM (fun (acc : Str × List (Str × Nat)) (tok : Str) =>
-      if tok.take 2 == ['%', '%'] then pure (replaceFirst acc.1 tok (tok.drop 1), acc.2)
+  let r ← reOrErr Gen.gen_format_token_re
+  let (out, _) ← subFold r fmt (fun (cache : List (Str × Nat)) (tok : Str) =>
+      if tok == ['%', '%'] then pure (Gen.gen_format_percent, cache)
       else
         match alookup tok table with
         | none => .error .fmtArg
-        | some rx => do
-          let (rx', cache') ← renameGroups pre suf rx acc.2
-          pure (replaceFirst acc.1 tok rx', cache')) (fmt, ([] : List (Str × Nat)))
+        | some rx => renameGroups pre suf rx cache) ([] : List (Str × Nat))
   pure out
 
 /-- `__validate_format`: merge `name__k` captures; differing duplicates are rejected -/
